@@ -69,6 +69,11 @@ def analyse(mod, run, label, fallbacks=CONFIRMED_FALLBACKS, overrides=FAIL_OVERR
                                      detail={"exits": [loc(t) for t, v in bad]}))
                 else:
                     run.ok("R2-failure-reported", {"fn": fn.name, "site": s.name(), "at": where, "failure_value": failure_name(fv), "exits": sorted({loc(t) for t, _, _ in ex})})
+                    # ---- R7: the failure is reported - then the long-lived object must not have been modified first ----
+                    pu = alloc.partial_updates(eng, fn, fa, k)
+                    run.check(not pu, "R7-object-untouched-when-failure-is-reported", {"fn": fn.name, "site": s.name()},
+                              Finding("R7-object-half-updated-on-failure", fn.name, s.name(), "store", "%s: when %s (at %s) fails the function reports failure, but it has already written the long-lived object through parameter '%s' at %s: the object is left inconsistent (e.g. a capacity that no longer matches its allocation)" % (
+                                  fn.name, s.name(), where, fn.argnames.get(pu[0][1], pu[0][1]) if pu else "", loc(pu[0][0]) if pu else ""), loc=loc(pu[0][0]) if pu else where))
             # ---- R1 ----
             if s.kind != "status":
                 recs = r1_by_site.get(id(s), [])
@@ -118,7 +123,7 @@ def controls(run):
     analyse(m, probe, "control", fallbacks={}, overrides={})
     got = {(f.rule, f.function) for f in probe.findings}
     for rule, fn in [("R1-null-deref", "ctl_unchecked"), ("R3-leak", "ctl_leak_on_error"), ("R2-failure-not-reported", "ctl_fallback"),
-                     ("R5-result-discarded", "ctl_discard"), ("R5-result-masked", "ctl_masked"), ("R6-owned-field-overwritten", "ctl_overwrite")]:
+                     ("R5-result-discarded", "ctl_discard"), ("R5-result-masked", "ctl_masked"), ("R6-owned-field-overwritten", "ctl_overwrite"), ("R7-object-half-updated-on-failure", "ctl_half_update")]:
         run.control("%s/%s" % (rule, fn), (rule, fn) in got)
     clean = [(f.rule, f.function) for f in probe.findings if f.function.startswith("ctl_clean") or f.function in ("grow", "bag_free")]
     run.control("silent on clean controls %s" % clean, not clean)
